@@ -279,6 +279,13 @@ def check(fx, rep, tier):
                 if re.search(r'(sig\.ident|method_name|method_ident)$', r) and 'unraw' not in r:
                     raw.append('%s:%s %s.to_string()' % (f, x.get('line'), r))
     rep.check(not raw, 'R12.7', 'ident-to-string|unraw', P, 'no identifier is stringified for the wire without unraw()', 'identifier stringified without unraw(): %s' % raw)
+    # R12.7 (resolved form): every Ident -> String conversion of the macro crate that can reach the wire is unraw'd (rule code of C15/R15.4)
+    import engine, c15
+    sub = engine.Report('C15', 'quick')
+    c15.check_idents(fx, sub)
+    for i in sub.insts:
+        if 'proxy::' in i.key:
+            (rep.ok if i.ok else rep.bad)('R12.7', i.key, i.where, i.msg, i.detail)
     # ---- R12.4 emitter truth table
     if 'generate_params_struct_fields' in fns:
         f, n = fns['generate_params_struct_fields']
